@@ -51,7 +51,7 @@ def preload():
         importlib.import_module(m)
 
 
-EXPECTED_PROBES = {t: ["fault_free_reparsed_at_end", "root_path:rel", "root_path:dotdot", "root_path:symlink", "configurations_in_place", "depth3_module", "dotted_path_3", "service_in_module", "device_in_module", "impl_in_module",
+EXPECTED_PROBES = {t: ["file_with_crlf_or_cr_endings", "module_is_symlink_to_outside", "fault_free_reparsed_at_end", "root_path:rel", "root_path:dotdot", "root_path:symlink", "configurations_in_place", "depth3_module", "dotted_path_3", "service_in_module", "device_in_module", "impl_in_module",
                        "enum_in_module", "module_uses_grandchild_decl", "missing_at_depth3", "two_modules_same_basename"]
                    for t in TIERS}
 
@@ -152,6 +152,14 @@ def root_path(base: Path, root_rel: str, style: str):
 def judge(par, base: Path, files, root_rel, expect, logger_mode, path_style="abs"):
     """expect: ("same", single_cats) | ("names", basename, extra). Returns (violations, outcome)."""
     K.sync_files(base, files)
+    if _LINK[0] and _LINK[0] in files:
+        # this module's real file lives outside the root directory; inside the tree there is only a symlink to it
+        inside = base / _LINK[0]
+        outside = base.parent / ("outside_" + base.name) / os.path.basename(_LINK[0])
+        outside.parent.mkdir(parents=True, exist_ok=True)
+        if not inside.is_symlink():
+            os.replace(inside, outside)
+            os.symlink(outside, inside)
     res = par.parse("file", root_path(base, root_rel, path_style), logger_mode)
     out = res["outcome"]
     if out == "hang":
@@ -211,6 +219,7 @@ def mk(v, workload, run=None):
     return {"class": cls, "signature": f"C20:{cls}:{detail}", "message": msg, "run": run, "workload": workload}
 
 
+_LINK = [None]          # relative path of the module that is a symlink to outside the tree (per run / replay)
 _SINGLE_DUP = [{}]      # duplicate-name counts of the last single-file schema (a schema may legally repeat a device name)
 
 
@@ -239,8 +248,22 @@ def run_one(seed: int, index: int, tier: str) -> dict:
     logger_mode = stream(run_seed, "swarm").choice(["fresh", "shared", "default"])
     par = K.Parser()
     nodes = K.nodes_of(root)
-    style = stream(run_seed, "swarm3").randrange(8)
+    rs3 = stream(run_seed, "swarm3")
+    style = rs3.randrange(8)
     files = K.tree_files(root, style)
+    # line endings are a property of each FILE: some modules (or the root) come with CRLF or CR-only endings
+    for rel in sorted(files):
+        if rs3.random() < 0.12:
+            files[rel] = files[rel].replace("\n", rs3.choice(["\r\n", "\r\n", "\r"]))
+            probes["file_with_crlf_or_cr_endings"] += 1
+    # one module may live outside the root's directory tree and be reached through a symlink
+    link_rel = None
+    leaves = sorted(n["file"] for n, _ in nodes[1:] if not any(it["kind"] == "mod" for it in n["items"]))
+    if leaves and rs3.random() < 0.15:
+        # only a module that imports nothing itself: where the imports of a symlinked file resolve (next to the link or
+        # next to its target) is not fixed by the property
+        link_rel = rs3.choice(leaves)
+        probes["module_is_symlink_to_outside"] += 1
     shape = tree_shape(root)
     # probes
     bn = Counter(os.path.basename(n["file"]) for n, _ in nodes)
@@ -264,6 +287,7 @@ def run_one(seed: int, index: int, tier: str) -> dict:
         for it in n["items"]:
             if it["kind"] == "struct" and any(nm in own for nm in _refs(it)):
                 probes["module_uses_grandchild_decl"] += 1
+    _LINK[0] = link_rel
     with Scratch("c20") as base:
         try:
             want, single_src = single_cats(par, base, root, style)
@@ -288,7 +312,7 @@ def run_one(seed: int, index: int, tier: str) -> dict:
         tr.add("clean", outcome=out, v=[x[:2] for x in v])
         for x in v:
             res["violations"].append(mk(x, {"tree": tree_json, "fault": None, "logger": logger_mode, "history": [],
-                                            "path_style": path_style}, index))
+                                            "path_style": path_style, "files": files, "link": link_rel}, index))
         if len(nodes) > 1:
             distinct.add(short([shape, "clean"]))
         # one fault per module and kind
@@ -319,7 +343,7 @@ def run_one(seed: int, index: int, tier: str) -> dict:
                                                                                   "text": ffiles.get(n["file"])},
                                                     "logger": logger_mode, "expect_type": detail.get("type"),
                                                     "removed": detail.get("removed", []),
-                                                    "history": hist, "path_style": path_style}, index))
+                                                    "history": hist, "path_style": path_style, "files": files, "link": link_rel}, index))
         # the process has now parsed this tree many times: the fault-free tree must STILL equal the single-file schema
         if len(res["violations"]) < 4:
             sub = base / "tree" if inplace else base / "tz"
@@ -330,7 +354,7 @@ def run_one(seed: int, index: int, tier: str) -> dict:
             tr.add("clean_again", outcome=out, v=[x[:2] for x in v])
             for x in v:
                 res["violations"].append(mk(x, {"tree": tree_json, "fault": None, "logger": logger_mode, "history": hist,
-                                                "path_style": path_style}, index))
+                                                "path_style": path_style, "files": files, "link": link_rel}, index))
     res["digest"] = tr.digest()
     res["probes"] = probes
     res["faults"] = faults
@@ -365,7 +389,8 @@ def relink(node):
 def check_workload(w):
     root = w["tree"]
     par = K.Parser()
-    files = K.tree_files(root)
+    files = w.get("files") or K.tree_files(root)
+    _LINK[0] = w.get("link")
     out = []
     with Scratch("c20r") as base:
         want, _ = single_cats(par, base, root)
@@ -405,7 +430,7 @@ def minimise(v):
     key = v["signature"]
 
     def fails(tree):
-        ww = dict(w, tree=tree)
+        ww = dict(w, tree=tree, files=None)       # files re-rendered from the candidate tree
         try:
             return any(x["signature"] == key for x in pristine(check_workload, ww))
         except Exception:
@@ -436,7 +461,7 @@ def minimise(v):
                 shrink(it["node"])
 
     shrink(tree)
-    out = dict(v, workload=dict(w, tree=tree), minimised=True)
+    out = dict(v, workload=dict(w, tree=tree, files=None), minimised=True)
     vs = [x for x in pristine(check_workload, out["workload"]) if x["signature"] == key]
     if vs:
         out["message"] = vs[0]["message"]
